@@ -1415,6 +1415,10 @@ impl<'de, R: Read<'de>> Parser<R> {
         let f: f64 = unsafe { str::from_utf8_unchecked(&self.scratch) }
             .parse()
             .map_err(|_| self.error(ErrorCode::NumberOutOfRange))?;
+        // The standard library parses an over-large literal to infinity.
+        if f.is_infinite() {
+            return Err(self.error(ErrorCode::NumberOutOfRange));
+        }
         if !pos {
             return Ok(f * -1.0);
         }
